@@ -71,4 +71,12 @@ theorem shards_of_nodup (perm : List Nat) (W : Nat) (hW : 0 < W) (hnd : perm.Nod
       obtain ⟨p, hp, _, hpx⟩ := (mem_shard _ _ _ _).1 hx
       rw [← hpx]; exact List.getElem_mem hp
 
+/-- the specification on a tuple item, without the `attach` of the well-founded definition -/
+theorem spec_tuple (xs : List Item) : emptyCollateSpec (.tuple xs) = .list (xs.map emptyCollateSpec) := by
+  rw [emptyCollateSpec]
+  congr 1
+  rw [List.map_attach_eq_pmap]
+  simp [List.pmap_eq_map]
+
+
 end Opacus.Sampler
